@@ -167,6 +167,39 @@ def monitor_honest(c, completeness):
     return None
 
 
+def has_overlap(c):
+    seen = {}
+    for o in c["ops"]:
+        if o["k"] == "push":
+            for f in o["rec"].get("frags", []):
+                seen.setdefault(f["seq"], set()).add((f["off"], f["flen"]))
+    for ivs in seen.values():
+        l = sorted(i for i in ivs if i[1] > 0)
+        for a, b in zip(l, l[1:]):
+            if b[0] < a[0] + a[1]:
+                return True
+    return False
+
+
+def exact_sum_hole(c):
+    """does the history reach a state where the first-writer-wins fragments of the next undelivered
+    message sum to its length although a byte is missing?"""
+    stored, popped = {}, 0
+    for o in c["ops"]:
+        if o["k"] != "push" or o["rec"]["kind"] != "hs" or o["res"][2]:
+            continue
+        for f in o["rec"]["frags"]:
+            if f["seq"] >= popped and not (f["flen"] == 0 and (f["len"] != 0 or f["off"] != 0)):
+                stored.setdefault(f["seq"], {}).setdefault(f["off"], f["flen"])
+        cur = stored.get(popped, {})
+        if popped < len(c["msgs"]) and cur:
+            length = c["msgs"][popped]["len"]
+            if sum(cur.values()) == length and not covered(set(cur.items()), length):
+                return True
+        popped += len(o["pops"])
+    return False
+
+
 def monitor_split(c):
     if c.get("panic"):
         return "panic", "fragmentHandshake panicked"
@@ -294,7 +327,7 @@ def run(chk):
             "messages_popped_on_implementation": sum(len(o["pops"]) for o in w["ops"])})
 
     # (2) generated honest histories
-    for leg in ("exh", "small", "big"):
+    for leg in ("multi", "exh", "small", "big"):
         for c in by_leg.get(leg, []):
             m = monitor_bounds(c) or monitor_honest(c, completeness=c["onepar"])
             if m:
@@ -358,6 +391,16 @@ def run(chk):
             chk.count(leg, len(cs), [key_of(c) for c in nontriv],
                       samples=[{"msgs": [(m["len"], m["mtu"]) for m in c["msgs"]], "pushes": len(c["ops"]),
                                 "popped": sum(len(o["pops"]) for o in c["ops"])} for c in nontriv[-2:]])
+        ms = by_leg.get("multi", [])
+        nontriv = [c for c in ms if has_overlap(c)]
+        chk.count("multi", len(ms), [key_of(c) for c in nontriv],
+                  samples=[{"msgs": [m["len"] for m in c["msgs"]], "pushes": len(c["ops"]),
+                            "popped": sum(len(o["pops"]) for o in c["ops"])} for c in nontriv[-2:]])
+        chk.leg_info("multi", exact_sum_with_missing_bytes=sum(1 for c in ms if exact_sum_hole(c)),
+                     cases_with_pops=sum(1 for c in ms if any(o["pops"] for o in c["ops"])),
+                     note="non-trivial = two different fragments of one message overlap; exact_sum_with_missing_bytes = "
+                          "histories in which the stored fragment lengths of the next message sum to its length "
+                          "while some byte was never received (must not be surfaced)")
         hs = by_leg.get("hostile", [])
         nontriv = [c for c in hs if any(o["cn"] > 0 for o in c["ops"]) and
                    (any(o["k"] == "push" and o["res"][2] for o in c["ops"]) or any(o["pops"] for o in c["ops"])
@@ -391,7 +434,9 @@ def run(chk):
              "(exh: all partitions x all arrival permutations x one duplicate, bodies <= 4 bytes / 2 messages <= 2 bytes; "
              "small: 1-5 messages <= 64 bytes, MTU 1..70, shuffles + duplicates + 1-3 fragments per record + junk "
              "records; hostile: inconsistent Length, overlapping offsets, zero-length fragments, 24-bit extremes, broken "
-             "tails, AdvanceTo; limits: both resource limits reached; regress: the two formerly failing inputs, run "
+             "tails, AdvanceTo; multi: a re-fragmenting peer - 2-3 partitions of each of 1-3 messages with losses, "
+             "interleaved, incl. overlaps whose lengths sum exactly to the message length with bytes missing - "
+             "safety monitors only; limits: both resource limits reached; regress: the two formerly failing inputs, run "
              "first; boundary: the documented liveness boundaries replayed). "
              "big: messages <= 40000 bytes, MTU <= 2000, monitored on the implementation only. split: "
              "(*Conn).fragmentHandshake vs Frag/Split.v (every length 0..12 x MTU 1..13 exhaustively + random). "
